@@ -54,6 +54,8 @@ Ltac c18_dec :=
   end.
 
 Ltac c18_close := c18_unfold; c18_dec; c18_unfold; interval with (i_prec 64).
+(* dependence within 2^-24 of +-1: 1 - rho^2 needs more than 64 bits to be evaluated without cancellation *)
+Ltac c18_close_hp := c18_unfold; c18_dec; c18_unfold; interval with (i_prec 192).
 
 (* constructor guard on concrete dependence values *)
 Ltac c18_ctor :=
